@@ -123,7 +123,7 @@ CHECKS.update({
         '(iff at levels 2-3), full regular-vine property for centre and direct vines and for regular vines up to the default truncation 3, a proved-sound executable validator, plus limits found by the proofs '
         '(escape branch diverges, NaN breaks greediness). Tie: the real Tree classes are driven with synthetic tau matrices (exhaustive rank orderings for d<=4 in thorough) with numpy/set orders replayed, and real '
         'VineCopula.fit outputs are replayed and validated by vm_compute; every edge copula is what select_copula returned and admissible.',
-   note=TB + 'Model.Vine is tied to the source by proof for its edge kernel (check_constraint, identify_eds_ing, is_adjacent, sort_edge, get_child_edge, get_constraints: tools/vf/vinegen.py, C16_bridge_*, coq/Lib/PySet.v) and for the CONSTRUCTION of centre and direct vines (_sort_tau_by_y, get_anchor, Center/Direct _build_first_tree / _build_kth_tree, Tree.fit, get_tree, train_vine, the tree-count bound of VineCopula.fit: tools/vf/vinebuildgen.py, coq/Lib/PyMat.v, Props/C16_build.v: C16_bridge_sort_tau_by_y .. C16_bridge_vine_fit, for all inputs); the Prim loops of RegularTree (tools/vf/vineregulargen.py, coq/Lib/PyPrim.v, Props/C16_regular.v: C16_bridge_regular_first / _kth, and the dispatch / Tree.fit / train_vine / VineCopula.fit bridges for all three vine types under sel_in, sel_some, perm_fun on the abstracted set order); Tree.get_tau_matrix stays an oracle input; numpy argsort tie order and Python set order are replayed as recorded data; general proximity beyond tree 3 and no-pair-twice for regular vines are only validated per run, not proved.',
+   note=TB + 'Model.Vine is tied to the source by proof for its edge kernel (check_constraint, identify_eds_ing, is_adjacent, sort_edge, get_child_edge, get_constraints: tools/vf/vinegen.py, C16_bridge_*, coq/Lib/PySet.v) and for the CONSTRUCTION of centre and direct vines (_sort_tau_by_y, get_anchor, Center/Direct _build_first_tree / _build_kth_tree, Tree.fit, get_tree, train_vine, the tree-count bound of VineCopula.fit: tools/vf/vinebuildgen.py, coq/Lib/PyMat.v, Props/C16_build.v: C16_bridge_sort_tau_by_y .. C16_bridge_vine_fit, for all inputs); the Prim loops of RegularTree (tools/vf/vineregulargen.py, coq/Lib/PyPrim.v, Props/C16_regular.v: C16_bridge_regular_first / _kth, and the dispatch / Tree.fit / train_vine / VineCopula.fit bridges for all three vine types under sel_in, sel_some, perm_fun on the abstracted set order); Tree.get_tau_matrix (symbolic cells), VineCopula.__init__ and the attribute skeleton of VineCopula.fit (tools/vf/vinefitgen.py, coq/Lib/PyVineFit.v, Model/VineFitState.v, Props/C16_fit.v; finding F8 as theorems about the generated functions); the numeric taus stay an oracle input; numpy argsort tie order and Python set order are replayed as recorded data; general proximity beyond tree 3 and no-pair-twice for regular vines are only validated per run, not proved.',
    technique='Coq proof over a graph-construction model; edge kernel and the construction of all three vine types incl. train_vine generated from the AST on every run and proved equal to the model (bridge theorems); replayed vm_compute correspondence + proved-sound validator on implementation output',
    ref='DESIGN.md section 7, C16'),
 })
